@@ -137,13 +137,11 @@ End Winners.
 
 (* ---------------------------------------------------------------------------------------------- *)
 (* the stream as a weighted bipartite graph *)
-Fixpoint nodupN (l : list N) : list N :=
-  match l with
-  | [] => []
-  | x :: r => x :: filter (fun y => negb (x =? y)%N) (nodupN r)
-  end.
-Definition froms (s : pairs) : list N := nodupN (map p_from s).
-Definition tos (s : pairs) : list N := nodupN (map p_to s).
+(* ids in order of first appearance *)
+Definition add_id (acc : list N) (x : N) : list N := if existsb (N.eqb x) acc then acc else acc ++ [x].
+Definition addl (xs : list N) (acc : list N) : list N := fold_left add_id xs acc.
+Definition froms (s : pairs) : list N := addl (map p_from s) [].
+Definition tos (s : pairs) : list N := addl (map p_to s) [].
 
 (* later duplicates overwrite *)
 Fixpoint lastw (s : pairs) (f t : N) : option Z :=
